@@ -4,6 +4,7 @@ Property theorems only. Model: Model/Sorter.lean (pkg/sorter/sorter.go). `sort.S
 parameter `sortFn` assumed to be some correct sort (`IsSort`).
 -/
 import WrglModel.Model.Sorter
+import WrglModel.Model.SorterReuse
 import WrglModel.Spec.Sorter
 import WrglModel.Lemmas.C19
 import WrglModel.Gen.Facts
@@ -60,5 +61,25 @@ theorem C19_addRows_total (sortFn : List Row → List Row) (runSize : Nat) (rows
     ∀ p, addRows sortFn Facts.addRowMaxCell runSize { chunks := [], current := [], size := 0 } rows ≠ .panic p := by
   rw [C19_fact_addRowGuard]
   exact ⟨addRows_ok_iff sortFn 65535 runSize rows, fun p => addRows_never_panics sortFn (some 65535) runSize rows p⟩
+
+/-- One sorter used for several tables (`Reset` between them): the state a use starts from does
+    not depend on what the sorter held before — rows never read, rows read up to a cancellation
+    (`consume`), chunks spilled or not. -/
+theorem C19_reuse_history_independent (sortFn : List Row → List Row) (maxCell : Option Nat) (runSize : Nat)
+    (st : SorterSt) (rows : List Row) :
+    reuse sortFn maxCell runSize st rows =
+      addRows sortFn maxCell runSize { chunks := [], current := [], size := 0 } rows := rfl
+
+/-- Hence a re-used sorter emits, for the table loaded after the `Reset`, exactly one row per
+    distinct key of THAT table in key order, whatever was left in it (same statement as
+    `C19_kept_spec`, for any earlier state `st0`, e.g. one reached by `consume`). -/
+theorem C19_reuse_kept_spec (sortFn : List Row → List Row) (pk : List Nat) (hs : IsSort pk sortFn)
+    (w : Nat) (maxCell : Option Nat) (runSize : Nat) (rows : List Row) (st0 st : SorterSt)
+    (hw : RowsWF w pk rows)
+    (hadd : reuse sortFn maxCell runSize st0 rows = .ok st) :
+    (keptRows sortFn pk st).Pairwise (fun a b => keyCmp (keyOf pk a) (keyOf pk b) = .lt) ∧
+    (∀ r ∈ keptRows sortFn pk st, r ∈ rows) ∧
+    (∀ r ∈ rows, ∃ r' ∈ keptRows sortFn pk st, keyOf pk r' = keyOf pk r) :=
+  kept_spec sortFn pk hs w maxCell runSize rows st hw hadd
 
 end Wrgl
